@@ -48,12 +48,20 @@ def gen(tier, rnd):
             else:
                 # an earlier batch in the same sequence, then a batch whose members finish while the loop is busy
                 elems = [{"batch": [leaf(sleep=0), leaf(sleep=0)]}, {"batch": [leaf(block="gate:g1", sleep=0), leaf(block="gate:g1", sleep=0)]}, {"leaf": leaf(sleep=0)}]
+        wide = (not paused) and (c % 9 == 4 or rnd.random() < 0.08)
+        if wide:
+            # a batch wider than any plausible worker-pool size inside the sequence; its first members return at once,
+            # the later ones are slow: the element after it must still wait for every one of their messages
+            elems = [{"batch": [leaf(sleep=0) for _ in range(8)] + [leaf(sleep=30000) for _ in range(rnd.choice([1, 4, 12, 25]))]}, {"leaf": leaf(sleep=0)}] + elems[:1]
         # a Sequence command stored in the model and returned again on a later Update (same command value, twice)
-        repeat = (not paused) and rnd.random() < 0.3
+        repeat = (not paused) and (not wide) and rnd.random() < 0.3
         if repeat and not any(e is None for e in elems[:-1]):
             elems = elems[:1] + [None] + elems[1:] + [{"leaf": leaf()}]
         cases.append({"elems": elems, "paused": paused, "traffic": rnd.choice([0, 1, 3]), "gomaxprocs": rnd.choice([0, 0, 1, 4, 16]),
-                      "repeat": 2 if repeat else 1})
+                      "repeat": 2 if repeat else 1, "wide": wide,
+                      # how long the loop stays inside the unrelated Update after the element finished (a hand-over that
+                      # stops waiting for the loop after some time-out shows with the long one)
+                      "hold_us": 150000 if c % 5 == 2 else 25000})
     return cases
 
 
@@ -78,7 +86,7 @@ def scenarios(cases):
         if c["paused"]:
             upd["u:77"] = {"pause": True}
             script += [P.DO("send", msg=P.U(1)), P.DO("sleep", us=3000), P.DO("go-send", msg=P.U(77)), P.W("pause:update:u:77"),
-                       P.DO("gate", name="g1"), P.DO("sleep", us=25000), P.DO("release", label="update:u:77", all=True)]
+                       P.DO("gate", name="g1"), P.DO("sleep", us=c.get("hold_us", 25000)), P.DO("release", label="update:u:77", all=True)]
         else:
             script += [P.DO("send", msg=P.U(1))]
             if c.get("repeat", 1) > 1:
@@ -264,7 +272,7 @@ def run(res, tier, seed):
         for i in bad[:1]:
             res.violation("C03:pattern", "the start/end log of a sequence does not follow the one-after-another pattern", {"case": cases[i]})
             found = True
-    if not found and (not proofs_ok or not tie_ok):
+    if not found and not res.violations and (not proofs_ok or not tie_ok):
         res.violation("C03:obligation", "proof obligation or tie no longer checks (%s); the Spec held on all %d real logs" % (broken, len(cases)),
                       {"broken": broken, "searched": "%d runs" % len(cases)}, found_input=False)
     res.coverage["input_distribution"] = {
@@ -274,6 +282,7 @@ def run(res, tier, seed):
         "nil_results": sum(1 for c in cases for e in c["elems"] if e and "leaf" in e and e["leaf"]["ret"] is None),
         "batch_elements": sum(1 for c in cases for e in c["elems"] if e and "batch" in e),
         "with_traffic": sum(1 for c in cases if c["traffic"]), "stored_and_dispatched_twice": sum(1 for c in cases if c.get("repeat", 1) > 1),
+        "wide_batch_in_sequence": sum(1 for c in cases if c.get("wide")), "loop_held_150ms": sum(1 for c in cases if c["paused"] and c.get("hold_us") == 150000),
     }
     res.coverage["traces_validated_against_impl"] = len(cases)
     res.samples = [{"elems": c["elems"], "paused": c["paused"]} for c in cases[:3]]
